@@ -23,7 +23,9 @@ type Imports struct {
 }
 
 func (i *Import) String() string {
-	if strings.HasSuffix(i.Path, i.Alias) {
+	// the alias is only left out when it is the package's own name: an alias chosen by the user
+	// may happen to be the tail of the path (util ".../strutil") and still be needed
+	if i.Alias == i.Name && strings.HasSuffix(i.Path, i.Alias) {
 		return strconv.Quote(i.Path)
 	}
 
